@@ -5,6 +5,7 @@ package props
 import (
 	"fmt"
 	"math/rand/v2"
+	"sync"
 
 	"github.com/creachadair/mds/mlink"
 	"github.com/creachadair/mds/ring"
@@ -23,14 +24,14 @@ func init() {
 		ID: "C10",
 		Meta: func(tier string) fw.Meta {
 			return fw.Meta{
-				Flavours: []string{"plain", "cover"},
+				Flavours: []string{"plain", "race", "cover"},
 				Blocks:   16,
 				Procs:    16,
 				Rule: "four generators. stack: histories of Push/Add/Pop/Clear with Len, IsEmpty, Top, Slice, Each (early stop), Peek(0..Len+1) after every op. mlink.Queue (zero value and NewQueue): Add/Pop/Clear incl. pop-to-empty-then-Add, with Len (constant-time counter) vs walked length, Front, Peek, Each. " +
 					"mlink.List: 20-60 edits through a population of 4-10 cursors obtained by At/Last/End/Find and moved by Next; Push/Add/Set/Remove/Truncate at any position incl. end-of-list, list Clear; after EVERY edit every cursor is re-checked (Get, AtEnd vs the model) and stale cursors are probed with every method: each must panic \"invalid cursor\" and leave Each unchanged (each probe is announced so that a hang is pinned to it). " +
 					"ring: exhaustive Join over every pair of elements of every configuration of <= 7 elements in <= 2 rings (same ring at every distance, different rings, singletons) and random Of/New/Join/Pop histories over a pool of nodes; after every op a bounded structural walk (Next/Prev mutually inverse, cycles close at their length), the cycles compared with the documented result, At/Peek for every offset |n| != len in [-len-1,len+1], Len, Each with early stop. " +
 					"distinct = hash of the history; non-trivial = list history that created at least one stale cursor / ring case whose Join changed the cycles",
-				Required:     []string{"stack_steps", "queue_steps", "queue_add_after_pop_to_empty", "list_edits", "stale_probes", "stale_truncate_probes", "truncate_then_add_at_end", "set_at_end", "ring_join_same_ring", "ring_join_different_rings", "ring_join_noop", "ring_pops", "ring_exhaustive_cases", "large_histories"},
+				Required:     []string{"stack_steps", "queue_steps", "queue_add_after_pop_to_empty", "list_edits", "stale_probes", "stale_truncate_probes", "truncate_then_add_at_end", "set_at_end", "ring_join_same_ring", "ring_join_different_rings", "ring_join_noop", "ring_pops", "ring_exhaustive_cases", "large_histories", "sparse_observation_list_histories", "concurrent_instance_histories"},
 				Exhaustive:   true,
 				Assumptions:  []string{"ring.At(n)/Peek(n) for |n| == Len is not constrained (doc comment and code disagree; the property is silent)", "Cursor.Add with no values is a no-op and is not used as a stale probe"},
 				CoverPkgs:    []string{"github.com/creachadair/mds/stack", "github.com/creachadair/mds/mlink", "github.com/creachadair/mds/ring"},
@@ -259,6 +260,7 @@ type c10list struct {
 	failed bool
 	stale  int
 	h      *fw.H
+	sparse bool // only the acting cursor's results are observed after an edit; everything is checked every 13th edit and at the end
 }
 
 func (l *c10list) fail(format string, args ...any) {
@@ -570,7 +572,10 @@ func (l *c10list) edit() {
 }
 
 func c10listCase(c *fw.Ctx, r *rand.Rand) {
-	l := &c10list{c: c, r: r, vals: map[int]int{}, h: fw.NewH()}
+	l := &c10list{c: c, r: r, vals: map[int]int{}, h: fw.NewH(), sparse: r.IntN(3) == 0}
+	if l.sparse {
+		c.Add("sparse_observation_list_histories", 1)
+	}
 	if r.IntN(2) == 0 {
 		l.lst = mlink.NewList[int]()
 	} else {
@@ -600,7 +605,9 @@ func c10listCase(c *fw.Ctx, r *rand.Rand) {
 		if len(l.log.ops) > before {
 			what = l.log.ops[len(l.log.ops)-1]
 		}
-		l.checkAll(what)
+		if !l.sparse || i%13 == 12 || i == steps-1 {
+			l.checkAll(what)
+		}
 	}
 	if l.stale > 0 && !l.failed {
 		h := fw.NewH()
@@ -1065,7 +1072,38 @@ func c10large(c *fw.Ctx, r *rand.Rand) {
 	c.Add("large_histories", 1)
 }
 
+// c10concurrent: separate containers used by separate goroutines at the same time.
+func c10concurrent(c *fw.Ctx, base int) {
+	fns := []func(*fw.Ctx, *rand.Rand){c10stack, c10queue, c10listCase, c10ringRandom, c10listCase, c10queue, c10listCase, c10stack}
+	for k := 0; k < c.Pick(4, 40); k++ {
+		var wg sync.WaitGroup
+		for g := 0; g < 8; g++ {
+			cc := c.Fork(base + 8*k + g)
+			if cc == nil {
+				continue
+			}
+			wg.Add(1)
+			go func(cc *fw.Ctx, g int) {
+				defer wg.Done()
+				for rep := 0; rep < 6; rep++ {
+					ok, pv, _ := fw.Try(func() { fns[g](cc, cc.Rng()) })
+					if !ok {
+						cc.FailKind("panic", map[string]any{"phase": "concurrent instances"}, "panic: %v", pv)
+						return
+					}
+				}
+			}(cc, g)
+		}
+		wg.Wait()
+		c.Add("concurrent_instance_histories", 48)
+	}
+}
+
 func runC10(c *fw.Ctx) {
+	c10concurrent(c, 1<<22)
+	if c.Flavour == "race" {
+		return
+	}
 	idx := 0
 	// exhaustive ring configurations, spread over blocks
 	cfg := 0
